@@ -193,7 +193,7 @@ def canon_model_calls(resp, ncalls):
 
 def oracles(trial, calls):
     """Property clauses evaluated on the implementation's observations.  Returns {prop: [(key, what)]}."""
-    v = {'C01': [], 'C02': [], 'C05': [], 'C07': []}
+    v = {'C01': [], 'C02': [], 'C05': [], 'C07': [], 'C04': [], 'C06': []}
     table = {int(k): x for k, x in trial['table'].items()}
     srcs = trial['srcs']
     wf = trial['profile'] in ('wf', 'bal')
@@ -201,6 +201,11 @@ def oracles(trial, calls):
     eph_last = {}
     for outs in calls:
         for o in outs:
+            if o['k'] == 'req':     # flow control: a request must say truthfully whether its source is ephemeral (the publisher stops waiting for ephemeral clients)
+                if o['eph'] != srcs[o['i']]['eph']:
+                    key = 'sync-request-marked-ephemeral' if srcs[o['i']]['eph'] == 0 else 'ephemeral-request-marked-sync'
+                    (v['C04'] if srcs[o['i']]['eph'] == 0 else v['C05']).append((key, f"request to source {o['i']} (eph={srcs[o['i']]['eph']}) carries eph={o['eph']}"))
+                if srcs[o['i']]['eph'] == 2: v['C05'].append(('request-to-doubly-ephemeral', f"request sent to ?? source {o['i']}"))
             if o['k'] == 'exc': v['C01'].append(('exception', o['e']))
             if o['k'] != 'ret': continue
             rid = o['id']
